@@ -1,6 +1,6 @@
 #!/bin/sh
 # tools/seedmatrix.sh [ids...] : run every seeded change against the check of its own property, 5 at a time; summary in /root/scratch/seedmatrix.txt
-cd /verif
+cd "$(dirname "$0")/.."
 ids="$@"; [ -z "$ids" ] && ids=$(ls seeded)
 out=/root/scratch/seedmatrix.txt; : > $out
 n=0
